@@ -153,6 +153,14 @@ def oracle_hist(p):
             out.append("len(frequencies()) = %d but len(psd) = %d after %s" % (len(f), len(s.psd), p["ops"]))
         elif rel(f, spec_freqs(s.sides, nfft, p.get("fs", 1.0))) > 1e-12:
             out.append("frequencies('%s') is not the specified axis for NFFT=%d: %s" % (s.sides, nfft, np.round(f, 4).tolist()[:8]))
+        # every axis the object can report, whatever its current sides, is the specified one ("length = its frequency axis")
+        for sd in (["twosided", "centerdc"] if cplx else ["onesided", "twosided", "centerdc"]):
+            fa = np.asarray(s.frequencies(sd))
+            fx = spec_freqs(sd, nfft, p.get("fs", 1.0))
+            if len(fa) != len(fx) or rel(fa, fx) > 1e-12:
+                out.append("frequencies('%s') has %d entries, the %s representation has %d (NFFT=%d sampling=%s)" % (
+                    sd, len(fa), sd, len(fx), nfft, p.get("fs", 1.0)))
+                break
         # returning to the original sides restores the original values exactly
         s.sides = "default"
         back = np.asarray(s.psd, dtype=float)
